@@ -271,13 +271,16 @@ def run_job(job, canary=False):
     failed = []
     reach = {}
     probes = {}
+    n_probe_results = 0
     unwind_fail = []
     for r in results:
         desc = r.get("description", "")
         st = r.get("status")
         if desc.startswith("reach-probe: "):
+            n_probe_results += 1
             if r.get("sourceLocation", {}).get("function") == job.entry and not canary:
-                probes[desc[len("reach-probe: "):]] = (st == "FAILURE")
+                nm = desc[len("reach-probe: "):]
+                probes[nm] = probes.get(nm, False) or (st == "FAILURE")
             continue
         if desc.startswith("canary-reach: "):
             if r.get("sourceLocation", {}).get("function") == job.entry:
@@ -308,7 +311,7 @@ def run_job(job, canary=False):
                 return res
     res["reach"] = reach
     res["probes"] = probes
-    res["obligations"] -= len(probes)
+    res["obligations"] -= n_probe_results
     res["failed"] = failed
     res["seconds"] = round(time.time() - t0, 2)
     if unwind_fail:
@@ -473,8 +476,9 @@ def run_property(prop, jobs, tier, level="proof", assumptions=(), trusted_base=(
         pr = r.get("probes", {})
         if pr and not any(pr.values()) and not j.expect_fail:
             infra.append("%s: no REACH point of the harness is reachable under its assumptions (vacuous run)" % j.name)
-        for k, v in pr.items():
-            probe_seen[(j.entry, k)] = probe_seen.get((j.entry, k), False) or v
+        if not getattr(j, "imported", False):
+            for k, v in pr.items():
+                probe_seen[(j.entry, k)] = probe_seen.get((j.entry, k), False) or v
         if j.expect_fail:
             hit = [e for e in r["failed"] if re.search(j.expect_fail, e["description"] or "")]
             neg_controls.append(dict(job=j.name, must_fail=j.expect_fail, fired=bool(hit)))
